@@ -14,6 +14,9 @@ relations.sieve). What IS proved, for all inputs, about the models of Ymq/Model/
 * `sign_total`, `sign_exclusive`, `large_sign_consistent`, `poly_factors_total`: the sign
   decision of `sieve_block_poly` / `Poly::factors` is total (no `debug_assert!` can fire),
   exclusive, and the parity rule for large primes is the same convention;
+* `store_total`, `complete_relations_emitted`: the store never panics on well-formed histories
+  (recursion of `update_tree` terminates within the model's fuel) and never loses a complete relation;
+* `relation_no_panic`: no panic site of the relation construction is reachable on its domain;
 * `emitted_subset_inputs`, `emit_hom`: for every history of `CRelationSet::add` calls the
   emitted relations are relations that were added; hence every homomorphism that kills the sieved
   relations kills every emitted relation (every line of relations.sieve, `relLine_val`);
@@ -26,6 +29,8 @@ relations.sieve). What IS proved, for all inputs, about the models of Ymq/Model/
 import Ymq.Lemmas.ClassGroupStore
 import Ymq.Lemmas.ClassGroupForms
 import Ymq.Lemmas.ClassGroupSign
+import Ymq.Lemmas.ClassGroupRel
+import Ymq.Lemmas.ClassGroupTotal
 import Mathlib.Algebra.BigOperators.Group.List.Basic
 import Mathlib.Algebra.Group.Basic
 import Mathlib.Data.Finset.Card
@@ -103,49 +108,32 @@ theorem large_sign_consistent (D : Int) (p ref : Nat) (bx : Int) (type1 : Bool) 
     largeSign type1 bx p = 1 ↔ modSigned bx p = ref :=
   largeSign_iff hp hodd href hbx hty
 
-/-- `Poly::factors` is total on its domain (type 2, odd `D`): every prime `(p, r)` of `A` is an odd
-prime with `r < p`, `r² ≡ D`, and the polynomial coefficient satisfies `B ≥ 0`, `B² ≡ D (mod p)`
-(`B² - 4AC = D`, `p ∣ A`). No `debug_assert!` fires and every sign is `±1`. -/
-theorem poly_factors_total (D : Int) (b : Int) (hb : 0 ≤ b) (hD : D % 4 = 1) :
-    ∀ afs : List (Nat × Nat),
-      (∀ pr ∈ afs, pr.1.Prime ∧ pr.1 % 2 = 1 ∧ pr.2 < pr.1 ∧ ((pr.1 : Int) ∣ (pr.2 : Int) * pr.2 - D)
-        ∧ ((pr.1 : Int) ∣ b * b - D)) →
-      ∃ l, polyFactors false b afs = some l ∧ l.map Prod.fst = afs.map Prod.fst ∧
-        ∀ x ∈ l, x.2 = 1 ∨ x.2 = -1
-  | [], _ => ⟨[], by simp [polyFactors], by simp, by simp⟩
-  | (p, r) :: fs, h => by
-    obtain ⟨hp, hodd, hr, hroot, hbp⟩ := h (p, r) List.mem_cons_self
-    obtain ⟨l, hl, hl1, hl2⟩ := poly_factors_total D b hb hD fs
-      (fun pr hpr => h pr (List.mem_cons_of_mem _ hpr))
-    obtain ⟨ref, href, hB⟩ := bPlus_odd hodd hr hD hroot
-    have hms : modSigned b p = b.natAbs % p := by
-      unfold modSigned
-      simp only
-      rw [if_neg (by omega)]
-    have hcases := modSigned_cases hp hB hbp
-    rw [hms] at hcases
-    have hle : ref ≤ p := hB.1
-    have hlt : b.natAbs % p < p := Nat.mod_lt _ hp.pos
-    rw [polyFactors]
-    simp only [Bool.false_eq_true, if_false, if_neg (not_lt.2 hb), href, hl, Option.bind_eq_bind,
-      Option.bind_some]
-    rcases hcases with hc | hc
-    · refine ⟨(p, 1) :: l, by rw [if_pos hc], by simp [hl1], ?_⟩
-      intro x hx
-      rcases List.mem_cons.1 hx with rfl | hx
-      · left; rfl
-      · exact hl2 x hx
-    · by_cases hc' : b.natAbs % p = ref
-      · refine ⟨(p, 1) :: l, by rw [if_pos hc'], by simp [hl1], ?_⟩
-        intro x hx
-        rcases List.mem_cons.1 hx with rfl | hx
-        · left; rfl
-        · exact hl2 x hx
-      · refine ⟨(p, -1) :: l, by rw [if_neg hc', if_pos (by omega)], by simp [hl1], ?_⟩
-        intro x hx
-        rcases List.mem_cons.1 hx with rfl | hx
-        · right; rfl
-        · exact hl2 x hx
+/-- `Poly::factors` is total on its domain, both polynomial types: every prime `(p, r)` of `A` is a
+prime whose stored root gives the normalised root `ref` (`bPlus_spec_odd` / `bPlus_spec_even`), the
+coefficient satisfies `B ≥ 0` and `y² ≡ D (mod p)` for `y = 2B` (type 1, `D = 4N`) resp. `y = B`
+(type 2) — which holds because `p ∣ A`. No `debug_assert!` fires and every sign is `±1`. -/
+theorem poly_factors_total (D : Int) (type1 : Bool) (b : Int) (hb : 0 ≤ b) (afs : List (Nat × Nat))
+    (h : ∀ pr ∈ afs, pr.1.Prime ∧ (∃ ref, bPlus pr.1 pr.2 type1 = some ref ∧ IsBPlus D pr.1 ref) ∧
+      ((pr.1 : Int) ∣ (if type1 then 2 * b else b) * (if type1 then 2 * b else b) - D)) :
+    ∃ l, polyFactors type1 b afs = some l ∧ l.map Prod.fst = afs.map Prod.fst ∧
+      ∀ x ∈ l, x.2 = 1 ∨ x.2 = -1 :=
+  polyFactors_ok hb afs h
+
+/-- The whole relation construction of `sieve_block_poly` (evaluation, `cofactor` trial division,
+conversion loop, `Poly::factors`, large primes) reaches no panic site: for a positive definite
+polynomial (`A > 0`, `B ≥ 0`) whose form has discriminant `D < 0`, candidate primes that are 2,
+conductor primes or factor-base primes with a correct root, and primes of `A` with correct roots.
+(`bx² - 4 A P(x) = D` is proved inside: `polyEval_disc`.) -/
+theorem relation_no_panic (D : Int) (type1 : Bool) (a b c x : Int) (maxprime maxlarge : Nat)
+    (double : Bool) (conductor : List Nat) (fb : List (Nat × Nat)) (facs : List Nat)
+    (afs : List (Nat × Nat)) (lp lq : Nat)
+    (ha : 0 < a) (hb : 0 ≤ b) (hdisc : polyDisc type1 a b c = D) (hD : D < 0)
+    (hfacs : ∀ p ∈ facs, FbOk D type1 conductor fb p)
+    (hafs : ∀ pr ∈ afs, pr.1.Prime ∧ ((pr.1 : Int) ∣ a) ∧
+      ∃ ref, bPlus pr.1 pr.2 type1 = some ref ∧ IsBPlus D pr.1 ref) :
+    relationOf type1 a b c x maxprime maxlarge double conductor fb facs afs lp lq ≠ .panic :=
+  relationOf_ne_panic D type1 a b c x maxprime maxlarge double conductor fb facs afs lp lq
+    ha hb hdisc hD hfacs hafs
 
 /-! ### the relation store -/
 
@@ -160,6 +148,24 @@ theorem emitted_subset_inputs (maxlarge : Nat) (rs : List Rel) (s : CSet)
     · exact fun r hr => hr
   intro r hr
   exact inv.1 r (by simpa [CSet.emitted] using hr)
+
+/-- Nothing is lost: every complete relation (no large prime) handed to `add` is among the emitted
+relations at the end of the history. -/
+theorem complete_relations_emitted (maxlarge : Nat) (rs : List Rel) (s : CSet)
+    (h : run { maxlarge := maxlarge } rs = some s) :
+    ∀ r ∈ rs, r.large1 = none → r.large2 = none → r ∈ s.emitted := by
+  intro r hr h1 h2
+  have := run_complete rs _ s h r hr h1 h2
+  simpa [CSet.emitted] using this
+
+/-- The relation store is total: for every history of relations whose large primes are below
+`u32::MAX` (the sieve only accepts large primes below 2^32 that are prime, so never 2^32 - 1) and
+distinct within a relation (`assert!(p != q)`), no panic site of `add` / `add_path` /
+`update_tree` is reached — `paths.get(&p).unwrap()` is always defined and the recursion of
+`update_tree` ends within the fuel of the model (so the fuel is not an artefact). -/
+theorem store_total (maxlarge : Nat) (rs : List Rel) (h : ∀ r ∈ rs, RelOk r) :
+    ∃ s, run { maxlarge := maxlarge } rs = some s :=
+  run_some rs _ (by intro v hv; simp [verts] at hv) h
 
 /-- value of a relation under an assignment `g` of group elements to primes (factor base primes
 and large primes alike): `Σ e • g p` -/
@@ -315,7 +321,18 @@ example : signedExp 13 9 (-17) 2 = some 2 := by decide
 example : (run { maxlarge := 1000 }
     [⟨[(3, 1)], some (101, 1), none⟩, ⟨[(5, 1)], some (101, -1), none⟩, ⟨[(7, 1)], some (101, 1), some (103, 1)⟩]).map
       (fun s => s.emitted.length) = some 2 := by decide
+/-- `RelOk` is satisfiable -/
+example : RelOk ⟨[(7, 1)], some (101, 1), some (103, 1)⟩ := by
+  refine ⟨?_, ?_, ?_⟩
+  · intro pe h; simp only [Option.some.injEq] at h; subst h; decide
+  · intro pe h; simp only [Option.some.injEq] at h; subst h; decide
+  · intro pe qe h1 h2; simp only [Option.some.injEq] at h1 h2; subst h1; subst h2; decide
 example : classNumber (-23) = 3 := by decide +kernel
+/-- `relation_no_panic` on a real candidate: D = -23, unit polynomial x² + x + 6, x = 1: P = 8 = 2³, y = 3 -/
+example : relationOf false 1 1 6 1 151 302 false [] [(2, 1), (3, 1), (13, 9)] [2, 3, 13] [] 1 1
+    = .rel ⟨[(2, -3)], none, none⟩ := by decide +kernel
+example : polyDisc false 1 1 6 = -23 ∧ FbOk (-23) false [] [(2, 1), (3, 1), (13, 9)] 2 := by
+  refine ⟨by decide, Or.inl rfl⟩
 example : IsReducedPrim (-23) ⟨2, -1, 3⟩ := by unfold IsReducedPrim Form.disc gcd3; decide
 example : invariantsOf [1, 2, 1, 30] = [2, 30] ∧ [1, 2, 1, 30].prod = 60 := by decide
 example : invariantsOk 60 [2, 30] = true := by decide
